@@ -160,10 +160,10 @@ Proof.
         destruct (later r) as [|w' ws]; cbn [cur later total_len fold_right length]; lia.
 Qed.
 
-Lemma next_item_net_fits c o s r : Inv c s -> tls_enabled c = false -> st s <> QUIT ->
+Lemma next_item_net_fits c o s r : Inv c s -> st s <> QUIT ->
   exists s' rp d, step c s (fst (next_item_net o s r)) = Ok s' rp d.
 Proof.
-  intros HI Ht Hq. unfold next_item_net.
+  intros HI Hq. unfold next_item_net.
   destruct (sstate_eqb (st s) DATA) eqn:Ed.
   - assert (Es : st s = DATA) by (destruct (st s); try discriminate; reflexivity). rewrite Es.
     destruct (dec BeginLine (cur r)) as [[b rest]|]; [|destruct (later r)]; cbn [fst];
@@ -182,15 +182,15 @@ Lemma run_reader_quit f c o s r : st s = QUIT -> run_reader f c o s r = ([], [],
 Proof. intros H. destruct f; cbn [run_reader]; [reflexivity|]. rewrite H. reflexivity. Qed.
 
 Theorem net_never_stuck : forall f c o s r,
-  Inv c s -> tls_enabled c = false -> (weight r + 2 <= f)%nat ->
+  Inv c s -> (weight r + 2 <= f)%nat ->
   st (snd (run_reader f c o s r)) = QUIT.
 Proof.
-  induction f as [|f IH]; intros c o s r HI Ht Hf; [lia|].
+  induction f as [|f IH]; intros c o s r HI Hf; [lia|].
   cbn [run_reader].
   destruct (sstate_eqb (st s) QUIT) eqn:Eq.
   - assert (Es : st s = QUIT) by (destruct (st s); try discriminate; reflexivity). rewrite Es. exact Es.
   - assert (Hq : st s <> QUIT) by (intro E; rewrite E in Eq; discriminate).
-    destruct (next_item_net_fits c o s r HI Ht Hq) as (s' & rp & d & E).
+    destruct (next_item_net_fits c o s r HI Hq) as (s' & rp & d & E).
     assert (Goal : st (snd (let '(it, r') := next_item_net o s r in
                              match step c s it with
                              | Ok s'0 r0 d0 => let '(its, tr, sf) := run_reader f c o s'0 r' in (it :: its, (it, r0, d0) :: tr, sf)
@@ -201,16 +201,16 @@ Proof.
       assert (HI' : Inv c s') by (eapply step_inv; eauto).
       destruct Hp as [Q|Hw].
       - rewrite (run_reader_quit f c o s' r' Q). exact Q.
-      - specialize (IH c o s' r' HI' Ht ltac:(lia)).
+      - specialize (IH c o s' r' HI' ltac:(lia)).
         destruct (run_reader f c o s' r') as [[its tr] sf]. exact IH. }
     destruct (st s); try congruence; exact Goal.
 Qed.
 
-Theorem net_session_always_ends : forall c o chunks f, tls_enabled c = false ->
+Theorem net_session_always_ends : forall c o chunks f,
   st (snd (run_net c o chunks f)) = QUIT.
 Proof.
-  intros c o chunks f Ht. unfold run_net.
-  destruct chunks as [|w ws]; apply net_never_stuck; try apply inv_init; try exact Ht;
+  intros c o chunks f. unfold run_net.
+  destruct chunks as [|w ws]; apply net_never_stuck; try apply inv_init;
     unfold weight; cbn [cur later total_len fold_right length]; lia.
 Qed.
 
